@@ -245,6 +245,16 @@ def cum_event(fc, conc: Conc, m_arg: float | None, tau_arg: float | None, rng: n
     mu = m_arg if m_arg is not None else float(getattr(fc, "M_", math.nan))
     tu = tau_arg if tau_arg is not None else float(getattr(fc, "tau_", math.nan))
     ev["agree_e15"] = arr_e15(out, mu * np.asarray(rf(t / tu), dtype=float))
+    # the caller refills its own time buffer in place (same array object, new contents) and forecasts again with the same
+    # tau: the forecast is M * rf(t / tau) of the contents it is given, whatever an earlier call saw
+    buf = np.array(t, dtype=float)
+    try:
+        fc.forecast_cum(buf, **kw)
+        buf *= 0.5
+        again = np.asarray(fc.forecast_cum(buf, **kw), dtype=float)
+        ev["agree_e15"] = max(ev["agree_e15"], arr_e15(again, mu * np.asarray(rf(buf / tu), dtype=float)))
+    except Exception:  # noqa: BLE001
+        ev["agree_e15"] = CAP
     a = float(10 ** rng.uniform(-3, 3))
     k = float(10 ** rng.uniform(-3, 3))
     try:
